@@ -7,6 +7,7 @@ import N2V.Monitors
 import N2V.Model.Db
 import N2V.Model.Load
 import N2V.Model.World
+import N2V.Model.Task
 open N2V
 
 def showRes (r : Res Bytes) : String :=
@@ -407,6 +408,8 @@ structure Acc where
   regenFirst : Bool := true
   reloadIffRan : Bool := true
   restatRunsNothing : Bool := true
+  wantedFromNewText : Bool := true
+  runSetAsPredicted : Bool := true
   adoptSeen : Bool := false
   nInv : Nat := 0
 
@@ -465,7 +468,27 @@ def stepOp (acc : Acc) (op : World.Op) : Acc :=
       -- (an error inside the phase leaves it open)
       let reloadOk := (!reloaded || (seg1Success && !seg1Bad)) &&
                       (!(coneSuccess && !seg1Bad && !o.result.startsWith "err") || reloaded)
-      { acc with w := w', out := acc.out ++ [line], obs := restObs, logs := acc.logs.drop 1,
+      -- C17/C18: after a reload the wanted set is the closure of what the NEW text asks for
+      let newText :=
+        if !reloaded || !implOk then true else
+        match loadEnv w' a.manifestName with
+        | .ok (l2, e2) =>
+          let sg2 := schedGraph e2.g
+          let ra := argsOf l2 a
+          match Mon.wantedFiles sg2 ra with
+          | some files =>
+            let cl := Mon.wantedBuilds sg2 ra files false
+            let touched := ((segs.drop 1).headD []).filterMap (fun e => match e with
+              | .set b .unknown _ _ _ => some b | _ => none)
+            touched.all cl.contains && cl.all touched.contains
+          | none => true
+        | .error _ => true
+      -- C03: the commands started are exactly those the model of the manifest rule predicts
+      let startsOf (t : List Sched.Ev) := t.filterMap (fun e => match e with | .start b => some b | _ => none)
+      let runSet := (startsOf o.trace).all (startsOf tr).contains && (startsOf tr).all (startsOf o.trace).contains
+                    && (startsOf o.trace).length == (startsOf tr).length
+      { acc with w := w', out := acc.out ++ [line], obs := restObs, wantedFromNewText := acc.wantedFromNewText && newText,
+                 runSetAsPredicted := acc.runSetAsPredicted && runSet, logs := acc.logs.drop 1,
                  prevInv := some (a, implOk), nInv := acc.nInv + 1, adoptSeen := acc.adoptSeen || a.adopt,
                  cleanEq := acc.cleanEq && cleanOk, noopAfterSuccess := acc.noopAfterSuccess && noop,
                  logAgrees := acc.logAgrees && logOk, regenFirst := acc.regenFirst && regen,
@@ -481,7 +504,8 @@ def handleHist (case impl : List String) : String :=
     let acc := ops.foldl HistDrv.stepOp { obs := invs, logs := logs }
     " ; ".intercalate acc.out ++ mons [("cleanEq", acc.cleanEq), ("noopAfterSuccess", acc.noopAfterSuccess),
       ("logAgrees", acc.logAgrees), ("regenFirst", acc.regenFirst), ("reloadIffRan", acc.reloadIffRan),
-      ("restatRunsNothing", acc.restatRunsNothing)]
+      ("restatRunsNothing", acc.restatRunsNothing), ("wantedFromNewText", acc.wantedFromNewText),
+      ("runSetAsPredicted", acc.runSetAsPredicted)]
   | _, _ => "bad-case"
 
 /-- `case` tokens and the implementation's observed tokens -> model line ++ monitor verdicts. -/
@@ -553,6 +577,46 @@ def handle (case impl : List String) : String :=
         | _ => [("noPanic", false)]
       "ok " ++ hexOfBytes (Render.progressBar ⟨w, r, q, ru, d, f⟩ n) ++ mons mon
     | _ => "bad-case"
+  | ["showinc", h] =>
+    match bytesOfHex h with
+    | some b =>
+      let (incs, out) := Task.extractShowIncludes b
+      -- C16/C09: no include note survives in what is shown; every other line does
+      let shown := match impl.getLast? with | some x => (bytesOfHex x).getD [] | none => []
+      let noNoteShown := (Task.splitNL shown []).all (fun l => !(Task.notePrefix.isPrefixOf l))
+      s!"ok {incs.length}" ++ String.join (incs.map (fun i => " " ++ hexOfBytes i)) ++ " " ++ hexOfBytes out
+        ++ mons [("noNoteShown", noNoteShown)]
+    | none => "bad-hex"
+  | ["lastline", h] =>
+    match bytesOfHex h with
+    | some b => "ok " ++ hexOfBytes (Task.findLastLine b)
+    | none => "bad-hex"
+  | ["status", "exit", c] =>
+    let code := c.toNat?.getD 0
+    let t := Task.decodeStatus (Task.exitStatus code)
+    (match t with | .success => "success -" | .interrupted => "interrupted -" | .failure => "failure -")
+      ++ mons [("zeroIsSuccess", (impl.head? == some "success") == (code % 256 == 0))]
+  | ["status", "sig", sg] =>
+    let sn := sg.toNat?.getD 0
+    let t := Task.decodeStatus (Task.signalStatus sn false)
+    (match t with
+      | .interrupted => "interrupted " ++ hexOfBytes (bytesOfString "interrupted")
+      | .failure => "failure " ++ hexOfBytes (bytesOfString s!"signal {sn}")
+      | .success => "success -")
+      ++ mons [("signalIsNotSuccess", impl.head? != some "success"),
+               ("sigintInterrupts", (impl.head? == some "interrupted") == (sn == Task.SIGINT))]
+  | ["output", sz, mode] =>
+    let n := sz.toNat?.getD 0
+    (if mode == "both" then s!"success {2 * n} {n} {n}" else s!"success {n} {n} 0")
+  | ["shcmd", _] => "same=1 okmatch=1"
+  | ["env", "stdin"] => hexOfBytes (bytesOfString "/dev/null")
+  | ["env", "cwd"] => "same"
+  | ["env", "fds"] => "leaked 0"
+  | ["n2bin", "printed", _, _] => "code=0 once=1 contiguous=1"
+  | ["n2bin", "rspfile"] => "code=0 content=" ++ hexOfBytes (bytesOfString "-a  in1 in2 \"q\" $x")
+  | ["n2bin", "exit", "ok"] => "code=0"
+  | ["n2bin", "exit", _] => "code=1"
+  | ["n2bin", "fds"] => "code=0 leaked=0"
   | "sched" :: rest => handleSched rest impl
   | "hist" :: rest => handleHist rest impl
   | "load" :: rest =>
